@@ -183,12 +183,34 @@ def run_tlc(
         subprocess.run(["pkill", "-f", str(meta)], check=False)
         raise MachineryError(f"TLC timed out after {timeout}s on {module}")
     finally:
-        shutil.rmtree(meta / "md", ignore_errors=True)
+        shutil.rmtree(meta, ignore_errors=True)
     res = TLCResult(p.returncode, p.stdout, time.time() - t0)
     if res.rc not in (0, 12, 13):
         tail = "\n".join(p.stdout.splitlines()[-40:])
         raise MachineryError(f"TLC failed on {module} (exit {res.rc}):\n{tail}")
     return res
+
+
+def tlc_generate(ctx: "Ctx", module: str, defines: Dict[str, str], cfg: Optional[str] = None,
+                 label: Optional[str] = None, timeout: int = 3600, workers: int = NCPU) -> List[Any]:
+    """Mode E: let TLC enumerate a bounded value domain; return the JSON carried by `out` in every state."""
+    d = Path(tempfile.mkdtemp(prefix="gen-", dir=ctx.scratch))
+    dump = d / "states"
+    t0 = time.time()
+    r = run_tlc(module, cfg, scratch=ctx.scratch, workers=workers, defines=defines, dump=dump, timeout=timeout)
+    if not r.ok:
+        raise MachineryError(f"generator {module} failed:\n" + r.out[-2000:])
+    ctx.add_tlc(r)
+    vals = parse_dump_out(Path(str(dump) + ".dump"))
+    shutil.rmtree(d, ignore_errors=True)
+    name = label or module
+    ctx.stage_info[f"tlc-gen:{name}"] = {"states": r.distinct, "values": len(vals), "constants": defines,
+                                         "wall_s": round(time.time() - t0, 1)}
+    ctx.checker_cmds.append(f"tlc -dump spec/{module}.tla {defines}")
+    print(f"[{ctx.pid}] tlc generator {name}: {len(vals)} values ({r.wall:.1f}s)", flush=True)
+    if not vals:
+        raise MachineryError(f"generator {module} produced nothing")
+    return vals
 
 
 _DUMP_VAR = re.compile(r'^/\\ out = "(.*)"$')
@@ -374,6 +396,10 @@ class Stage:
     def nontrivial(self, case: Any) -> bool:
         return True
 
+    def tags(self, case: Any) -> List[str]:
+        """Labels counted per stage in the evidence (vacuity control)."""
+        return []
+
     def env(self, ctx: Ctx) -> Dict[str, str]:
         return {}
 
@@ -478,6 +504,9 @@ def run_stage(ctx: Ctx, stage: Stage, inputs: Optional[List[Any]] = None) -> Non
             continue
         info["judged"] += 1
         ctx.traces += 1
+        for t in stage.tags(c):
+            info.setdefault("tags", {})
+            info["tags"][t] = info["tags"].get(t, 0) + 1
         if stage.nontrivial(c):
             ctx.nontrivial.add(digest(c))
         if v == "ok":
@@ -489,7 +518,11 @@ def run_stage(ctx: Ctx, stage: Stage, inputs: Optional[List[Any]] = None) -> Non
     info["wall_s"] = round(time.time() - t0, 1)
     ctx.stage_info[stage.name] = info
     print(f"[{ctx.pid}] stage {stage.name}: inputs={info['inputs']} judged={info['judged']} ok={info['ok']} "
-          f"skipped={info['skipped']} exceptions={info['exceptions']} ({info['wall_s']}s)", flush=True)
+          f"skipped={info['skipped']} exceptions={info['exceptions']} ({info['wall_s']}s) {info.get('tags', '')}", flush=True)
+    need = getattr(stage, "required_tags", ())
+    for t in need:
+        if info["judged"] >= 50 and not info.get("tags", {}).get(t):
+            raise MachineryError(f"stage {stage.name}: no case with tag {t!r} was explored (vacuous)")
     if info["judged"] == 0 and info["inputs"] > 0 and not info["exceptions"]:
         raise MachineryError(f"stage {stage.name} judged nothing (vacuous)")
 
